@@ -74,6 +74,9 @@ func (o goStructObject) setValue(rt *runtime, name string, value Value) bool {
 	if err != nil {
 		panic(rt.panicTypeError("Object.setValue convertCallParameter: %s", err))
 	}
+	if !fieldValue.CanSet() {
+		panic(rt.panicTypeError("cannot assign to field %s of a struct that was not passed by pointer", name))
+	}
 	fieldValue.Set(converted)
 
 	return true
